@@ -176,8 +176,15 @@ def eng_synth(pid, tier, wd, known, replay=None):
     mism, stats, resps, kinds = synth.run_cases(cases, wd, pid)
     viol = []
     # 1. correspondence mismatches -> search for a failing input with the property oracle
-    for m in mism[:10]:
+    unexplained = 0
+    for m in mism:
         why = oracle_synth(pid, cases[m], resps[m])
+        if not why:
+            unexplained += 1
+            if unexplained > 10:
+                continue
+        elif len(viol) >= 40:
+            continue
         payload = {"property": pid, "kind": "failing-input" if why else "no-failing-input-found",
                    "broken": "correspondence synth: Model.analyze vs buildProviderMap/verifyAcyclic/solve",
                    "input": {"graph": {"set": cases[m][0], "given": cases[m][1], "out": cases[m][2]}},
